@@ -109,8 +109,16 @@ inductive Ready where
   | start (t : TId)            -- first step of a task
 deriving Repr, Inhabited
 
+/-- the function of a `CancellableAction` (oracle): what it returns or raises, and whether running it gets the action
+itself cancelled (superseded by another request while it runs, e.g. a kill arriving during the transition a pause
+action performs) -/
+structure ActFn where
+  cancels : Bool := false
+  out : Call
+deriving Repr, Inhabited, DecidableEq
+
 structure Act where
-  fn : Option Call      -- `self._action` (`none` after `run`)
+  fn : Option ActFn     -- `self._action` (`none` after `run`)
   calls : Nat := 0      -- ghost: how often the function was called
 deriving Repr, Inhabited
 
@@ -357,8 +365,20 @@ def scheduleRpc (s : State) (c : Call) : State × FId :=
       ntasks := s.ntasks + 1, ready := s.ready ++ [.start s.ntasks] }, (alloc s .kiwi).2)
 
 /-- `CancellableAction(action)` -/
-def newAction (s : State) (fn : Call) : State × FId :=
+def newAction (s : State) (fn : ActFn) : State × FId :=
   ((alloc s .aio).1.setAct (alloc s .aio).2 (some { fn := some fn }), (alloc s .aio).2)
+
+/-- the `try: result = self._action(..) / except Exception / else` block of `CancellableAction.run`, once the function
+has had its effects; the second component is what propagates to the caller of `run` -/
+def actFinish (s : State) (a : FId) : Call → State × Option Exc
+  | .ret v =>
+      if (s.st a).done then (s, none)                             -- else: if not self.done(): (it stays cancelled)
+      else ((setOutcome s a (.result v)).1, none)                 --         self.set_result(result)
+  | .raise e =>
+      if e.isException then                                       -- except Exception as exception:
+        if (s.st a).done then (s, some e)                         --   if self.done(): raise   (cancelled while running)
+        else ((setOutcome s a (.exc e)).1, none)                  --   self.set_exception(exception)
+      else (s, some e)                                            -- a BaseException propagates out of run()
 
 /-- `CancellableAction.run()`; the second component is what `run` raises to its caller -/
 def runAction (s : State) (a : FId) : State × Option Exc :=
@@ -368,15 +388,11 @@ def runAction (s : State) (a : FId) : State × Option Exc :=
     if (s.st a).done then (s, some .actionInvalid)                -- if self.done(): raise InvalidStateError
     else
       match act.fn with
-      | none =>                                                   -- self._action is None: TypeError, captured
-          (captureSetExc s .inline a .notCallable, none)
-      | some (.ret v) =>
-          let s1 := s.setAct a (some { fn := none, calls := act.calls + 1 })   -- finally: self._action = None
-          (captureSetResult s1 .inline a v, none)
-      | some (.raise e) =>
-          let s1 := s.setAct a (some { fn := none, calls := act.calls + 1 })
-          if e.isException then (captureSetExc s1 .inline a e, none)
-          else (s1, some e)                                       -- not captured: propagates out of run()
+      | none => actFinish s a (.raise .notCallable)               -- self._action is None: the call raises TypeError
+      | some fn =>
+          -- the function runs (and may get its own action cancelled); finally: self._action = None
+          actFinish (if fn.cancels then cancelFut (s.setAct a (some { fn := none, calls := act.calls + 1 })) a
+                     else s.setAct a (some { fn := none, calls := act.calls + 1 })) a fn.out
 
 /-- the environment completes a future it owns -/
 def complete (s : State) (f : FId) : St → State × Bool
